@@ -55,7 +55,7 @@ def run(chk, replay=None):
     chk.rule = ("grammar-generated find / update / delete / insert / aggregate lines in which a subset of the user field names matches R, every operator wrapper and array nesting between the "
                 "matching name and the literal; regexp families: anchored alternatives, case-insensitive, substring, prefix, no match; every literal class; "
                 "non-trivial = distinct (regexp, line) pairs containing at least one matching and one non-matching name")
-    cases = streams.crossclass_lines() + streams.grammar_lines(rng, 2000 if th else 400, 0.0)    # the same literal under matching and non-matching names
+    cases = gen.dotted_vs_nested_lines() + streams.crossclass_lines() + streams.grammar_lines(rng, 2000 if th else 400, 0.0)    # the same literal under matching and non-matching names
     lines = [l for l, _ in cases]
     full = run_lines(Cfg(nums=True, bools=True), lines)
     for fi, (rx, pred) in enumerate(families):
